@@ -127,6 +127,20 @@ pub fn leaf_cert_valid(key: &SigningKey, root_key: &SigningKey, issuer: &str, su
     Some(finish(b, root_key))
 }
 
+/// A conformant leaf whose OWN key is on P-384 (issued by a P-256 root)
+pub fn leaf_cert_p384(key: &p384::ecdsa::SigningKey, root_key: &SigningKey, issuer: &str, subject: &str, eku: &str, serial: u64) -> Option<Certificate> {
+    let spki = SubjectPublicKeyInfoOwned::from_key(*key.verifying_key()).ok()?;
+    let ski = OctetString::new(Sha1::digest(spki.subject_public_key.raw_bytes()).to_vec()).ok()?;
+    let mut b = CertificateBuilder::new(Profile::Manual { issuer: Some(issuer.parse().ok()?) }, serial.into(), Validity::from_now(Duration::from_secs(86400)).ok()?, subject.parse().ok()?, spki, root_key).ok()?;
+    b.add_extension(&SubjectKeyIdentifier(ski)).ok()?;
+    b.add_extension(&AuthorityKeyIdentifier { key_identifier: Some(ski_of(root_key)), ..Default::default() }).ok()?;
+    b.add_extension(&KeyUsage(KeyUsages::DigitalSignature.into())).ok()?;
+    b.add_extension(&ian()).ok()?;
+    b.add_extension(&crl_dp()).ok()?;
+    b.add_extension(&ExtendedKeyUsage(vec![ObjectIdentifier::new_unwrap(eku)])).ok()?;
+    Some(finish(b, root_key))
+}
+
 /// A leaf that NAMES `named_root` (issuer name, authority key identifier) but is signed by its own key.
 pub fn forged_leaf(key: &SigningKey, named_root: &SigningKey, issuer: &str, subject: &str, eku: &str, serial: u64) -> Certificate {
     let spki = SubjectPublicKeyInfoOwned::from_key(*key.verifying_key()).unwrap();
